@@ -154,22 +154,20 @@ pub fn eval_seq(g: &[NodeSpec], seq: &[Root], pid: &str) -> Option<(String, Stri
             if p2.encode() != portable.encode() {
                 return Some(("replay-differs".into(), "replaying the same registrations gave different bytes".into()));
             }
-            // portable side: every prefix state converts to a prefix of the next, ids handed out keep resolving
-            let mut prev: Option<PortableRegistry> = None;
-            for k in 0..=seq.len() {
-                let (rk, _, _) = register_seq(&seq[..k]);
-                let pk: PortableRegistry = rk.into();
-                if let Some(pb) = &prev {
-                    if pk.types.len() < pb.types.len() || pb.types.iter().zip(&pk.types).any(|(x, y)| x != y) {
-                        return Some(("portable-prefix-stability".into(), format!("PortableRegistry::from(state {}) is not a prefix of PortableRegistry::from(state {k})", k - 1)));
-                    }
-                    for (_, id) in &pairs[..k - 1] {
-                        if pb.resolve(*id) != pk.resolve(*id) {
-                            return Some(("handed-out-id-changed".into(), format!("id {id} handed out earlier resolves differently after registration {k}")));
-                        }
+            // portable side, last transition only (every prefix is itself an enumerated sequence): the state
+            // before converts to a prefix of the state after, ids handed out earlier keep resolving
+            if !seq.is_empty() {
+                let k = seq.len();
+                let (rb, _, _) = register_seq(&seq[..k - 1]);
+                let pb: PortableRegistry = rb.into();
+                if portable.types.len() < pb.types.len() || pb.types.iter().zip(&portable.types).any(|(x, y)| x != y) {
+                    return Some(("portable-prefix-stability".into(), format!("PortableRegistry::from(state {}) is not a prefix of PortableRegistry::from(state {k})", k - 1)));
+                }
+                for (_, id) in &pairs[..k - 1] {
+                    if pb.resolve(*id) != portable.resolve(*id) {
+                        return Some(("handed-out-id-changed".into(), format!("id {id} handed out earlier resolves differently after registration {k}")));
                     }
                 }
-                prev = Some(pk);
             }
             None
         }
